@@ -5,58 +5,80 @@ from sym.check import Ob
 from .common import setup, run_kernels
 
 
-def k_absolute(base, chk):
-    """Absolute = Select(Negate(u), u, IsNegative(u)) executed from SSA (BV, Negate/IsNegative summarised by their contracts)"""
-    fname = base.prog.find("Element).Absolute")
-    k = K.BVK(base, chk, fname)
-    calls = []
+def absolute_battery(seed):
+    from sym import native, ref
+    import random
+    rng = random.Random(seed)
+    cands = ref.limb_candidates(rng, 64)
+    for k_ in range(0, 19):          # p+k in the tight form, and 2^255-1 .. values just above p
+        cands.append([2**51 - 19 + k_, 2**51 - 1, 2**51 - 1, 2**51 - 1, 2**51 - 1])
+    cands += [[0, 0, 0, 2**51, 2**51 - 1], [2**51, 2**51 - 1, 2**51 - 1, 2**51 - 1, 2**51 - 1], [1, 0, 0, 0, 0], [2, 0, 0, 0, 0]]
+    ops = []
+    for c in cands:
+        ops.append({"op": "Absolute", "args": ["v", "u"], "init": {"v": "7,7,7,7,7", "u": ref.fmt_limbs(c)}})
+        ops.append({"op": "Absolute", "args": ["u", "u"], "init": {"u": ref.fmt_limbs(c)}})
+    res = native.run_ops("field", ops)
+    for o, r in zip(ops, res):
+        c = ref.parse_limbs(o["init"]["u"])
+        val = ref.fe_val(c) % K.P
+        want = val if val % 2 == 0 else K.P - val
+        got = ref.fe_val(ref.parse_limbs(r["slots"][o["args"][0]])) % K.P
+        if got != want:
+            return dict(what="Absolute(%s)%s = %d, expected %d" % (c, " (v=u)" if o["args"][0] == "u" else "", got, want), op="Absolute", args=o["args"], init=o["init"])
+        if o["args"][0] != "u" and r["slots"]["u"] != o["init"]["u"]:
+            return dict(what="Absolute modified its argument", op="Absolute", args=o["args"], init=o["init"])
+    return None
 
-    def neg(ex, path, args):
-        v, a = args
-        limbs = [z3.BitVec("neg.l%d" % i, 64) for i in range(5)]
-        calls.append(("Negate", ex.load(path, a)))
-        ex.store(path, v, tuple(limbs))
-        path.dstate["neg"] = limbs
-        return v
 
-    def isneg(ex, path, args):
-        (v,) = args
-        calls.append(("IsNegative", ex.load(path, v)))
-        b = z3.BitVec("isneg", 64)
-        path.pc.append(z3.Or(b == 0, b == 1))
-        path.dstate["isneg"] = b
-        return b
-    k.ex.summaries[base.prog.find("Element).Negate")] = neg
-    k.ex.summaries[base.prog.find("Element).IsNegative")] = isneg
+def k_absolute(base, chk, alias=False):
+    """Absolute executed end to end in Int-LF (Negate, IsNegative -> Bytes -> reduce + serialisation, Select with a fork
+    on the sign bit): on every path the result is +-u (mod p) and IsNegative(result), re-executed from its SSA, is 0"""
+    from sym.dom_lf import LF, LFCond
+    prog = base.prog
+    fname = prog.find("Element).Absolute")
+    label = "Absolute[v=u]" if alias else "Absolute"
+    k = K.LFK(base, chk, fname, label=label)
+    for f in ("Element).IsNegative", "Element).Bytes", "Element).bytes", "Element).reduce", "Element).Negate", "Element).Select"):
+        chk.used(prog, prog.find(f), "Int-LF (inlined)")
     u, ul = k.elem("u")
-    v, vl = k.elem("v")
-    (p,) = k.run([v, u])
-    out = k.ex.load(p, v)
-    b, ng = p.dstate["isneg"], p.dstate["neg"]
-    k.prove(p, "result = -u when u is negative (odd reduced value), u otherwise", z3.And([z3.If(b == 1, out[i] == ng[i], out[i] == ul[i]) for i in range(5)]))
-    k.prove(p, "Negate and IsNegative are applied to u itself", all(tuple(map(str, c[1])) == tuple(map(str, ul)) for c in calls) and sorted(c[0] for c in calls) == ["IsNegative", "Negate"])
-    k.prove(p, "returns the receiver, argument not written", p.outcome[1][0] == v and not any(w[0] == "w" and w[1] == u.obj for w in p.log))
-    # parity lemma: x odd in [1,p-1]  =>  p-x even and in [1,p-1]   (so the selected root is non-negative)
-    t0 = time.time()
-    x = z3.Int("x")
-    s = z3.Solver()
-    s.add(x >= 0, x <= K.P - 1, x % 2 == 1, z3.Not(z3.And((K.P - x) % 2 == 0, K.P - x >= 1, K.P - x <= K.P - 1)))
-    chk.add(Ob("Absolute: parity lemma (x odd, 0<=x<p => p-x even, in range)", str(s.check()), time.time() - t0, [fname], "LIA"))
-
-    def replay(models, seed):
-        from sym import native, ref
-        import random
-        rng = random.Random(seed)
-        cands = ref.limb_candidates(rng, 64)
-        res = native.run_ops("field", [{"op": "Absolute", "args": ["v", "u"], "init": {"v": "7,7,7,7,7", "u": ref.fmt_limbs(c)}} for c in cands])
-        for c, r in zip(cands, res):
-            val = ref.fe_val(c) % K.P
-            want = val if val % 2 == 0 else K.P - val
-            got = ref.fe_val(ref.parse_limbs(r["slots"]["v"])) % K.P
-            if got != want:
-                return dict(what="Absolute(%s) = %d, expected %d" % (c, got, want), op="Absolute", inputs=dict(u=c))
-        return None
-    k.settle(replay)
+    v = u if alias else k.out_elem()[0]
+    paths = k.ex.call(fname, [v, u], k.path)
+    bad = [p for p in paths if p.outcome[0] != "ret"]
+    chk.add(Ob("%s: returns normally on every path (%d paths; the fork is on the sign bit)" % (label, len(paths)), "unsat" if paths and not bad else "sat", 0, [fname], "Int-LF", detail=str([p.outcome for p in bad][:2])))
+    isneg = prog.find("Element).IsNegative")
+    for i, p in enumerate(p for p in paths if p.outcome[0] == "ret"):
+        out = k.limbs(p, v)
+        t0 = time.time()
+        r1 = k.dom.prove_congr(p, K.fval(out), K.fval(ul), K.P, "plus")
+        r2 = "unsat" if r1 == "unsat" else k.dom.prove_congr(p, K.fval(out), -K.fval(ul), K.P, "minus")
+        chk.add(Ob("%s [path %d]: result = u or result = -u (mod p)" % (label, i), "unsat" if "unsat" in (r1, r2) else "sat", time.time() - t0, [fname], "Int-LF"))
+        for j_, o in enumerate(out):
+            k.goal(p, "le", "[path %d] out.l%d within the invariant" % (i, j_), o, K.B)
+        # non-negativity: the real IsNegative on the result
+        t0 = time.time()
+        p2 = p.clone()
+        p2.outcome = None
+        p2.frames = []
+        verdict = "unsat"
+        for q in k.ex.call(isneg, [v], p2):
+            if q.outcome[0] != "ret":
+                verdict = "error"
+                continue
+            b = q.outcome[1][0]
+            if isinstance(b, int):
+                if b != 0:
+                    verdict = "sat"
+            else:
+                r = k.dom.check(q, [LFCond("!=", LF.of(b))], "parity")
+                if r != "unsat":
+                    verdict = r
+        chk.add(Ob("%s [path %d]: the result is non-negative (IsNegative(result) = 0, i.e. its fully reduced value is even)" % (label, i), verdict, time.time() - t0, [fname, isneg], "Int-LF"))
+        chk.fact("%s [path %d]: returns the receiver%s" % (label, i, "" if alias else "; argument not written"),
+                 p.outcome[1][0] == v and (alias or not any(w[0] == "w" and w[1] == u.obj for w in p.log)), [fname])
+    bad_obs = [o for o in chk.obs if o.name.startswith(label) and not o.ok()]
+    if bad_obs:
+        from sym import l1 as L1m
+        L1m.settle(chk, bad_obs, lambda: absolute_battery(chk.seed), "Element.Absolute")
 
 
 def k_constants(base, chk):
@@ -116,3 +138,8 @@ def run(chk):
     # closure of the invariant: the largest output bound of any operation is <= B
     chk.add(Ob("invariant closed: max output bound 2^51+19*2^13-1 (carry chains) and B (Mult32) <= B", "unsat" if 2**51 + 19 * 2**13 - 1 <= K.B else "sat", 0, [], "arithmetic"))
     chk.samples = [o.j() for o in chk.obs if "value" in o.name][:6]
+
+
+def safety_net(chk):
+    from .c11 import alias_battery
+    return alias_battery(chk.seed) or absolute_battery(chk.seed)
